@@ -12,11 +12,16 @@ The oracles here share no code with the mapping passes:
 * `strip_swaps`         swap-stripping translation validation,
 * refsim.mapped_cost    (called from props/c09.py).
 
-`ProbePass` / `RecordPass` are ordinary passes put *between* the passes under
-observation inside the workflow that the real Compiler executes: they wrap
-two methods of the real algorithm class with counting wrappers (in the worker
-process) and snapshot PassData at pass boundaries. They never change the
+`RecordPass` is an ordinary pass put *between* the passes under observation
+inside the workflow that the real Compiler executes: it snapshots PassData
+(and, on request, a copy of the circuit) at pass boundaries and, on first use
+in a worker process, wraps two methods of the real algorithm class
+(`_uphill_swaps`, `_apply_swap`) with counting wrappers so that the check
+knows whether the local-minimum escape path ran. It never changes the
 circuit or the data the mapping passes read.
+
+* `pam_walk`            block-level validation of permutation-aware routing
+* `mapped_cost_of`      refsim.mapped_cost applied to the embedding isometry
 """
 from __future__ import annotations
 
@@ -160,37 +165,12 @@ def connected_in(adj: list[set[int]], nodes: Sequence[int]) -> bool:
 
 
 def all_connected_graphs(n: int) -> list[list[tuple[int, int]]]:
-    """All connected labelled graphs on n vertices up to nothing (labelled)."""
+    """All connected labelled graphs on n vertices."""
     out = []
     pairs = [(i, j) for i in range(n) for j in range(i + 1, n)]
     for mask in range(1 << len(pairs)):
         e = [pairs[k] for k in range(len(pairs)) if mask >> k & 1]
         if len(e) >= n - 1 and connected_in(adjacency(n, e), list(range(n))):
-            out.append(e)
-    return out
-
-
-def unlabelled_connected_graphs(n: int) -> list[list[tuple[int, int]]]:
-    """One representative per isomorphism class of connected graphs on n
-    vertices (canonical form = lexicographically smallest edge mask over all
-    relabellings; n <= 5 only)."""
-    seen: set[int] = set()
-    out = []
-    pairs = [(i, j) for i in range(n) for j in range(i + 1, n)]
-    pidx = {p: k for k, p in enumerate(pairs)}
-    perms = list(itertools.permutations(range(n)))
-    for e in all_connected_graphs(n):
-        best = None
-        for p in perms:
-            m = 0
-            for a, b in e:
-                x, y = p[a], p[b]
-                m |= 1 << pidx[(x, y) if x < y else (y, x)]
-            if best is None or m < best:
-                best = m
-        assert best is not None
-        if best not in seen:
-            seen.add(best)
             out.append(e)
     return out
 
@@ -662,6 +642,15 @@ def pam_walk(
     ptr = [0] * W
     recs = {(int(k[0]), int(k[1])): v for k, v in (out_data or {}).items()}
 
+    barriers_off = False   # set after the first misplaced barrier (below)
+
+    def next_on(l: int) -> int | None:
+        while barriers_off and ptr[l] < len(per_q[l]) and isinstance(
+            in_ops[per_q[l][ptr[l]]].gate, BarrierPlaceholder,
+        ):
+            ptr[l] += 1
+        return per_q[l][ptr[l]] if ptr[l] < len(per_q[l]) else None
+
     for cyc, op in routed.operations_with_cycles():
         PL = [int(q) for q in op.location]
         if isinstance(op.gate, SwapGate):
@@ -671,9 +660,11 @@ def pam_walk(
             pos[la], pos[lb] = b, a
             info['swaps'] += 1
             continue
-        lset = [occ[p] for p in PL]
-        nxt = {per_q[l][ptr[l]] if ptr[l] < len(per_q[l]) else None for l in lset}
         is_bar = isinstance(op.gate, BarrierPlaceholder)
+        if is_bar and barriers_off:
+            continue
+        lset = [occ[p] for p in PL]
+        nxt = {next_on(l) for l in lset}
         j = next(iter(nxt)) if len(nxt) == 1 else None
         if j is None or set(in_ops[j].location) != set(lset):
             want = [
@@ -687,6 +678,12 @@ def pam_walk(
                 'next_input_ops_on_those_qudits': want,
                 'logical_to_physical_now': list(pos),
             })
+            if is_bar:
+                info['barriers'] += 1
+                # one witness for the fence; keep validating blocks, swaps
+                # and mappings with barriers ignored on both sides
+                barriers_off = True
+                continue
             return bad, info
         iop = in_ops[j]
         for l in lset:
@@ -762,7 +759,7 @@ def pam_walk(
         pos = pos2
         for l in S:
             occ[pos[l]] = l
-    left = [l for l in range(W) if ptr[l] < len(per_q[l])]
+    left = [l for l in range(W) if next_on(l) is not None]
     if left:
         bad.append({'kind': 'pam:operations_missing', 'logical_qudits': left})
     want_fm = [pos[int(x)] for x in fm_before]
